@@ -205,7 +205,7 @@ def _tokens(text):
         elif text.startswith("&&", i) or text.startswith("<=", i) or text.startswith(">=", i):
             toks.append(text[i:i + 2])
             i += 2
-        elif c in "+*()<>":
+        elif c in "+*()<>%/":
             toks.append(c)
             i += 1
         elif c.isdigit():
@@ -221,54 +221,70 @@ def _tokens(text):
     return toks
 
 
-def cond_to_coq(cond_text):
-    """`while A <= B && C <= D` over i, src_stride, length with + and * only
-    -> a Coq boolean expression (no subtraction: usize underflow is not modelled)"""
-    text = _constants(re.sub(r"^\s*while\b", "", cond_text))
-    toks = _tokens(text)
-    pos = [0]
+ROWS_RE = re.compile(r"\bmatrix\s*\.\s*rows\s*\(\s*\)")
+COLS_RE = re.compile(r"\bmatrix\s*\.\s*columns\s*\(\s*\)")
 
-    def peek():
-        return toks[pos[0]] if pos[0] < len(toks) else None
 
-    def take():
-        t = peek()
-        pos[0] += 1
+class _Expr(object):
+    """expressions over the given variables with + * (and / % by src_stride only),
+    comparisons and && -> Coq text.  No subtraction (usize underflow is not modelled)."""
+
+    def __init__(self, text, variables, what):
+        text = _constants(text)
+        text = ROWS_RE.sub("rows", text)
+        text = COLS_RE.sub("columns", text)
+        self.toks = _tokens(text)
+        self.pos = 0
+        self.vars = variables
+        self.what = what
+
+    def peek(self):
+        return self.toks[self.pos] if self.pos < len(self.toks) else None
+
+    def take(self):
+        t = self.peek()
+        self.pos += 1
         return t
 
-    def atom():
-        t = take()
+    def atom(self):
+        t = self.take()
         if isinstance(t, tuple) and t[0] == "num":
             return str(t[1])
         if isinstance(t, tuple) and t[0] == "id":
-            if t[1] not in ("i", "src_stride", "length"):
-                raise ParseError("block loop condition mentions unknown variable %s" % t[1])
+            if t[1] not in self.vars:
+                raise ParseError("%s mentions unknown variable %s" % (self.what, t[1]))
             return t[1]
         if t == "(":
-            e = summ()
-            if take() != ")":
-                raise ParseError("block loop condition: missing )")
+            e = self.summ()
+            if self.take() != ")":
+                raise ParseError("%s: missing )" % self.what)
             return e
-        raise ParseError("block loop condition: unexpected token %r" % (t,))
+        raise ParseError("%s: unexpected token %r" % (self.what, t))
 
-    def prod():
-        e = atom()
-        while peek() == "*":
-            take()
-            e = "(%s * %s)" % (e, atom())
+    def prod(self):
+        e = self.atom()
+        while self.peek() in ("*", "/", "%"):
+            op = self.take()
+            r = self.atom()
+            if op == "*":
+                e = "(%s * %s)" % (e, r)
+            else:
+                if r != "src_stride":
+                    raise ParseError("%s: division by something else than src_stride" % self.what)
+                e = "(%s %s %s)" % (e, "/" if op == "/" else "mod", r)
         return e
 
-    def summ():
-        e = prod()
-        while peek() == "+":
-            take()
-            e = "(%s + %s)" % (e, prod())
+    def summ(self):
+        e = self.prod()
+        while self.peek() == "+":
+            self.take()
+            e = "(%s + %s)" % (e, self.prod())
         return e
 
-    def cmp_():
-        a = summ()
-        op = take()
-        b = summ()
+    def cmp_(self):
+        a = self.summ()
+        op = self.take()
+        b = self.summ()
         if op == "<=":
             return "(%s <=? %s)" % (a, b)
         if op == "<":
@@ -277,15 +293,71 @@ def cond_to_coq(cond_text):
             return "(%s <=? %s)" % (b, a)
         if op == ">":
             return "(%s <? %s)" % (b, a)
-        raise ParseError("block loop condition: comparison expected, got %r" % (op,))
+        raise ParseError("%s: comparison expected, got %r" % (self.what, op))
 
-    e = cmp_()
-    while peek() == "&&":
-        take()
-        e = "%s && %s" % (e, cmp_())
-    if peek() is not None:
-        raise ParseError("block loop condition: trailing tokens %r" % (toks[pos[0]:],))
-    return e
+    def cond(self):
+        e = self.cmp_()
+        while self.peek() == "&&":
+            self.take()
+            e = "%s && %s" % (e, self.cmp_())
+        self.end()
+        return e
+
+    def value(self):
+        e = self.summ()
+        self.end()
+        return e
+
+    def end(self):
+        if self.peek() is not None:
+            raise ParseError("%s: trailing tokens %r" % (self.what, self.toks[self.pos:]))
+
+
+def cond_to_coq(cond_text):
+    """`while A <= B && C <= D` over i, src_stride, length -> a Coq boolean expression"""
+    return _Expr(re.sub(r"^\s*while\b", "", cond_text), ("i", "src_stride", "length"), "block loop condition").cond()
+
+
+TAIL_VARS = ("i", "j", "src_stride", "length", "rows")
+FILL_VARS = ("k", "src_stride", "length", "rows", "columns")
+TAIL_RE = re.compile(
+    r"while\s+(?P<cond>[^{]+)\{\s*for\s+j\s+in\s+0\s*\.\.\s*(?P<cols>[0-9xXa-fA-F_]+)\s*\{\s*"
+    r"if\s+(?P<guard>[^{]+)\{\s*matrix\s*\[(?P<row>[^\]]+)\]\s*\[(?P<col>[^\]]+)\]\s*=\s*s\s*\[(?P<src>[^\]]+)\]\s*;\s*\}\s*\}\s*"
+    r"i\s*\+=\s*(?P<step>[0-9xXa-fA-F_]+)\s*;\s*\}")
+FILL_RE = re.compile(
+    r"for\s+k\s+in\s+(?P<lo>[^{]+?)\.\.(?P<hi>[^{.]+(?:\.\s*\w+\s*\(\s*\)[^{.]*)*)\{\s*"
+    r"matrix\s*\[(?P<row>[^\]]+)\]\s*\[(?P<col>[^\]]+)\]\s*=\s*A\s*::\s*Symbol\s*::\s*default\s*\(\s*\)\s*;\s*\}")
+
+
+def parse_tail_fill(body):
+    """the scalar loop over the remaining rows and the wildcard fill that follow the block loop"""
+    k = body.find("_mm_sfence")
+    if k < 0:
+        raise ParseError("_mm_sfence() not found after the block loop")
+    rest = body[k:]
+    mt = TAIL_RE.search(rest)
+    if not mt:
+        raise ParseError("scalar tail loop `while .. { for j in 0..N { if .. { matrix[..][..] = s[..]; } } i += K; }` not found")
+    mf = FILL_RE.search(rest, mt.end())
+    if not mf:
+        raise ParseError("wildcard fill loop `for k in A..B { matrix[..][..] = A::Symbol::default(); }` not found")
+    between = rest[mt.end():mf.start()]
+    if between.strip():
+        raise ParseError("unrecognised statement between the tail loop and the fill loop: %r" % between.strip()[:80])
+    t = dict(
+        cond=_Expr(mt.group("cond"), ("i", "src_stride", "length", "rows"), "tail loop condition").cond(),
+        cols=_num(mt.group("cols")),
+        guard=_Expr(mt.group("guard"), TAIL_VARS, "tail loop guard").cond(),
+        row=_Expr(mt.group("row"), TAIL_VARS, "tail loop row index").value(),
+        col=_Expr(mt.group("col"), TAIL_VARS, "tail loop column index").value(),
+        src=_Expr(mt.group("src"), TAIL_VARS, "tail loop source index").value(),
+        step=_num(mt.group("step")))
+    f = dict(
+        lo=_Expr(mf.group("lo"), FILL_VARS, "fill loop start").value(),
+        hi=_Expr(mf.group("hi"), FILL_VARS, "fill loop end").value(),
+        row=_Expr(mf.group("row"), FILL_VARS, "fill loop row index").value(),
+        col=_Expr(mf.group("col"), FILL_VARS, "fill loop column index").value())
+    return t, f
 
 
 STEP_OUT_RE = re.compile(r"out\s*=\s*out\s*\.\s*add\s*\(\s*([0-9xXa-fA-F_]+)\s*\*\s*out_stride\s*\)\s*;")
@@ -370,6 +442,25 @@ def render(arms, blk, disp):
     L.append("Definition blk_src_step : nat := %d." % blk["steps"]["src"])
     L.append("Definition blk_i_step : nat := %d." % blk["steps"]["i"])
     L.append("")
+    t, f = blk["tail"], blk["fill"]
+    L.append("(* scalar loop over the remaining rows: while <cond> { for j in 0..<cols> { if <guard> {")
+    L.append("   matrix[<row>][<col>] = s[<src>] } } i += <step> }   (rows = matrix.rows(), length = s.len()) *)")
+    tv = "(i j src_stride length rows : nat)"
+    L.append("Definition tail_cond %s : bool := %s." % (tv, t["cond"]))
+    L.append("Definition tail_cols : nat := %d." % t["cols"])
+    L.append("Definition tail_guard %s : bool := %s." % (tv, t["guard"]))
+    L.append("Definition tail_row %s : nat := %s." % (tv, t["row"]))
+    L.append("Definition tail_col %s : nat := %s." % (tv, t["col"]))
+    L.append("Definition tail_src %s : nat := %s." % (tv, t["src"]))
+    L.append("Definition tail_i_step : nat := %d." % t["step"])
+    L.append("")
+    L.append("(* wildcard fill: for k in <lo>..<hi> { matrix[<row>][<col>] = default }  (columns = matrix.columns()) *)")
+    fv = "(k src_stride length rows columns : nat)"
+    L.append("Definition fill_lo %s : nat := %s." % (fv, f["lo"]))
+    L.append("Definition fill_hi %s : nat := %s." % (fv, f["hi"]))
+    L.append("Definition fill_row %s : nat := %s." % (fv, f["row"]))
+    L.append("Definition fill_col %s : nat := %s." % (fv, f["col"]))
+    L.append("")
     L.append("(* (register, K) for `let mut r = _mm256_loadu_si256(src.add(K * src_stride))`, in order *)")
     L.append("Definition net_loads : list (nat * nat) :=")
     L.append("  [" + "; ".join("(%d, %d)" % p for p in blk["loads"]) + "].")
@@ -407,6 +498,7 @@ def translate(write=True):
         blk = parse_block(body2)
         blk["cond_coq"] = cond_to_coq(blk["cond"])
         blk["steps"] = parse_steps(body2)
+        blk["tail"], blk["fill"] = parse_tail_fill(body2)
         disp = parse_dispatch(_strip_comments(open(DISPATCH).read()))
         text = render(arms, blk, disp)
     except (ParseError, OSError, ValueError) as e:
